@@ -55,11 +55,12 @@ TLoad == /\ IsEvent("load")
          /\ IF E.ret = 0
             THEN /\ E.sum.depth >= 2
                  /\ E.full \in {0, 1}
-                 /\ E.full = 1 => (E.topo.n > 0 /\ WellFormed(E.topo) /\ SumOf(E.topo) = E.sum)
-                 /\ E.full = 0 => E.topo.n = 0
+                 /\ E.slot = 0 /\ Len(E.topos) = 1
+                 /\ E.full = 1 => (E.topos[1].n > 0 /\ WellFormed(E.topos[1]) /\ SumOf(E.topos[1]) = E.sum)
+                 /\ E.full = 0 => E.topos[1].n = 0
                  /\ desc.ok => BuildRel(desc.d, E.sum)
                  /\ st' = "loaded" /\ cur' = E.sum
-            ELSE /\ E.sum.depth = 0 /\ E.topo.n = 0
+            ELSE /\ E.sum.depth = 0 /\ E.topos[1].n = 0
                  /\ st' = "refused" /\ cur' = NoSum
          /\ UNCHANGED <<desc, exp, rel>>
 
